@@ -7,3 +7,7 @@ Theorem C14_rise_holds : C14_rise. Proof. exact c14_rise. Qed.
 Print Assumptions C14_rise_holds.
 Theorem C14_scarcity_holds : C14_scarcity. Proof. exact c14_scarcity. Qed.
 Print Assumptions C14_scarcity_holds.
+(* bounds along every history (Spec/StatementsWF.v) *)
+Require Import Boario.Spec.StatementsWF Boario.Proofs.C20Proofs.
+Theorem C14_invariant_holds : C14_invariant. Proof. exact c14_invariant. Qed.
+Print Assumptions C14_invariant_holds.
